@@ -259,7 +259,11 @@ def run(ctx):
         def probe(data, col, asked=asked):
             asked.append(col); return float(np.sum(data.response[:, col]))
         for fn_, fname in ((npc.Experiment.TestFunc.mean_diff, "mean_diff"), (probe, "user function")):
-            arr_ = guarded(npc.Experiment.make_test_array, fn_, idxs if ctx.rng.random() < 0.7 else tuple(idxs))
+            how_ = ctx.rng.choice(["list", "list", "tuple", "iter", "generator", "map", "range-like", "ndarray"]); ctx.count("make_test_array-indices-as-" + how_)
+            ix_arg = {"list": lambda: idxs, "tuple": lambda: tuple(idxs), "iter": lambda: iter(idxs), "generator": lambda: (i_ for i_ in idxs),
+                      "map": lambda: map(int, idxs), "range-like": lambda: dict.fromkeys(range(len(idxs))).keys() if idxs == list(range(len(idxs))) else list(idxs),
+                      "ndarray": lambda: np.array(idxs)}[how_]()
+            arr_ = guarded(npc.Experiment.make_test_array, fn_, ix_arg)
             ctx.case(("mta", tuple(idxs), fname, tuple(group), tuple(map(tuple, resp))), True); ctx.count("make_test_array-index-lists")
             bad = None
             if arr_[0] != "ok" or len(arr_[1]) != len(idxs):
